@@ -646,6 +646,8 @@ def run(rep, tier):
     st2 = tp.probe(tp.TP_C, {n_: "TP_THREAD_STATE_" + n_ for n_ in ("STARTING", "RUNNING", "STOP")}, "probe:tpstate3")
     rep.floor("slot state transitions", c11_audit.slot_state_rule(rep, u, st2), 3)
     c11_audit.shutdown_done_rule(rep, u)
+    c11_audit.fd_packing_rule(rep)
+    rep.floor("STOP stores of the thread procedure", c11_audit.last_access_rule(rep, u, st2), 1)
     c11_audit.pvt_drain_rule(rep, us)
     rep.floor("descriptor sentinel tests", c11_audit.fd_sentinel_rule(rep, u), 4)
     race(rep, u)
